@@ -33,7 +33,17 @@ def main():
         tests = [f for f in demos if f.endswith('_test.go')]
         # demo kinds: Go test (target = package dir, pattern = -run regexp) or script
         # (target = 'php', pattern = '<script file>::<substring the output has iff the property holds>')
-        if target == 'php':
+        if target == 'sh':
+            # a shell demo written against the seeding agent's own worktree: run a copy that points at ours
+            src = open(os.path.join(seeddir, pattern)).read()
+            src = re.sub(r'/tmp/seed-C\d+', wt, src)
+            tmpsh = f'{wt}/.seed-demo.sh'
+            open(tmpsh, 'w').write(src)
+            demo_cmd = f'sh {tmpsh}'
+            def run_demo():
+                return sh(demo_cmd, cwd=wt, timeout=900)
+            meta['demo_cmd'] = f'sh {pattern}   (worktree path substituted; passes iff exit 0)'
+        elif target == 'php':
             script, expect = pattern.split('::', 1)
             demo_cmd = f'go build -o {wt}/.seedcli . && {wt}/.seedcli {os.path.join(seeddir, script)}'
             def run_demo():
@@ -64,9 +74,11 @@ def main():
             rc, out = 1, 'demo timed out (hang)'
         meta['demo_with_change'] = 'fail' if rc != 0 else 'PASS'
         print('demo with change:', meta['demo_with_change'])
-        if target != 'php':
+        if target not in ('php', 'sh'):
             for f in tests:
                 os.remove(os.path.join(wt, target, os.path.basename(f)))
+        if os.path.exists(f'{wt}/.seed-demo.sh'):
+            os.remove(f'{wt}/.seed-demo.sh')
         if os.path.exists(f'{wt}/.seedcli'):
             os.remove(f'{wt}/.seedcli')
         rc, out = sh('go test -vet=off -count=1 ./... 2>&1 | grep -E "^(FAIL|--- FAIL|ok)"', cwd=wt)
